@@ -1,7 +1,7 @@
 #![allow(clippy::many_single_char_names)]
 
 use crate::log::tag::Tag;
-use crate::log::tag_value::TagValue;
+use crate::log::tag_value::{write_json_string, TagValue};
 use std::cmp::Ordering;
 use std::fmt::{Debug, Display, Formatter};
 use std::hash::{Hash, Hasher};
@@ -63,11 +63,12 @@ impl Add for TagList {
 }
 impl Display for TagList {
     fn fmt(&self, f: &mut Formatter<'_>) -> Result<(), std::fmt::Error> {
-        if let Some(tag) = self.0.first() {
-            write!(f, "{:?}:{}", tag.name, tag.value)?;
-        }
-        for tag in self.0.iter().skip(1) {
-            write!(f, ",{:?}:{}", tag.name, tag.value)?;
+        for (n, tag) in self.0.iter().enumerate() {
+            if n > 0 {
+                write!(f, ",")?;
+            }
+            write_json_string(f, tag.name)?;
+            write!(f, ":{}", tag.value)?;
         }
         Ok(())
     }
